@@ -319,16 +319,14 @@ func specWorkflow(c *Case, obs []CallObs) (string, string) {
 		case "addbranch":
 			branches = append(branches, branch{k.From, k.Ends, i})
 		case "addend":
-			if compiledAt < 0 && violation == "" {
-				if _, ok := nodes[k.From]; ok || k.From == "start" {
-					addEnds = append(addEnds, [2]string{k.From, "end"})
-					for _, f := range k.Fields {
-						if endFields[f]++; endFields[f] > 1 && dupEndField < 0 {
-							dupEndField = i
-						}
+			// the deprecated AddEnd is End().AddInput (repair d4925e3): recorded, added by Compile
+			handle["end"] = true
+			inputs = append(inputs, input{"end", k.From, "normal", i})
+			if compiledAt < 0 {
+				for _, f := range k.Fields {
+					if endFields[f]++; endFields[f] > 1 && dupEndField < 0 {
+						dupEndField = i
 					}
-				} else {
-					mark(i, "unknown-edge-source")
 				}
 			}
 		case "compile":
